@@ -5,7 +5,7 @@ CHECK = Check(
     streams=[
         Stream("c19", drv="c19", sub="c19",
                nontrivial=lambda tags, inp: "d:foreign" not in tags and "s:foreign" not in tags,
-               descr="destination kind x source kind x form x value x buffer matrix of Assign / AssignBuf"),
+               descr="destination kind x source kind x form x value x buffer matrix of Assign / AssignBuf, and histories of calls over reused source / destination objects"),
         # the model of Assign rests on these two validated slices of strconv
         Stream("strconv", drv="strconv", sub="strconv", descr="validation of Base/Strconv.v (ParseInt/ParseUint, the integer recognisers)"),
         Stream("floats", drv="floats", sub="floats", descr="validation of Base/Floats.v (ParseFloat, float32 conversion, AppendFloat 'f' -1 64 on the exact-decimal domain)"),
@@ -28,7 +28,17 @@ CHECK = Check(
           "inside the exact-decimal domain of Floats.render_float (finite binary fractions with at most 15 significant decimal digits, "
           "plus zeros, NaN, Inf); cases outside it are not generated. spec = both readings of Spec/AssignSpec.v where the property text "
           "is silent (numeral outside the destination type's range, '+5' into unsigned, '1.' into float: tag 'silent'), every admissible "
-          "owner class. Non-trivial = neither side foreign; distinct = distinct input string."),
+          "owner class. Plus HISTORIES of two or three calls over objects that come back (tag 'hist'; Model/AssignSeq.v = the single call "
+          "iterated on the values present at each step): ONE source object serving every step with other content - a []byte rewritten "
+          "in place (value form and *[]byte over the same array), a string that is the zero-copy view of such an array, one *string "
+          "pointed at other text, one *T (bool, ten integer kinds, float32, float64) holding another value - with texts of one length "
+          "(numbers of every family, garbage, numerals the neighbouring family refuses; every ordered pair of neighbours, both "
+          "directions), texts that grow and shrink, true/false words; x every destination kind, fresh per step, of another kind at "
+          "every step, or ONE destination receiving every step (also with sources of every kind built anew, a refusal in the middle "
+          "keeping what the step before stored); one buffer throughout. Observed per step: ok, destination, buffer content; each "
+          "step must give what the same call gives with freshly built objects (spec = Spec/AssignSeqSpec.v seq_allowed). A reused text "
+          "source is not combined with a reused text destination (the destination would alias the slice being rewritten). "
+          "Non-trivial = neither side foreign; distinct = distinct input string."),
     assumptions=["amd64: int and uint are 64 bit",
                  "float rendering (AppendFloat 'f' -1 64) is modelled on the exact-decimal domain only; the theorems carry it as the "
                  "hypothesis `rendered rf src` and the generator stays inside the domain",
@@ -48,9 +58,13 @@ MANIFEST = {
              "C19_two_readings (on the inputs where the text is silent the code realises one of the two stated readings), C19_forms_equal, "
              "C19_replaces, C19_untouched_on_failure, C19_buffered_lives_in_buffer, C19_owner_allowed; arithmetic over all Z / all spec_float / "
              "all strings (the regexp recognisers + strconv parsers are proved equal to the specification's decimal grammar for every string). "
+             "C19_history: every history of calls of any length (destinations fresh or one reused destination, one buffer) is one the "
+             "specification admits step by step - the model is a function of the values the source and destination hold at each call, "
+             "and the stream checks that the code is too when source/destination objects are reused and rewritten in place. "
              "C19_refuted_nil_source + C19_nil_source: typed nil pointer sources panic (open finding). C19_refuted_str_appends: the pinned "
              "commit appended to the old string (fixed). Tied to /repo by running the extracted model and the real Assign/AssignBuf on the "
-             "full kind x kind x form x value x buffer matrix, incl. natively computed ownership classes."),
+             "full kind x kind x form x value x buffer matrix, incl. natively computed ownership classes, and on 2-3 call histories over "
+             "reused source objects (rewritten in place) and reused destinations."),
     "note": ("Trusted: Coq kernel, extraction (ExtrOcamlBasic+ExtrOcamlString), Go harness. Modelled not verified: assign.go, assign_builtin.go, "
              "x2bytes v1.0.2, byteconv S2B/B2S, the slices of strconv in Base/Strconv.v and Base/Floats.v (validated by their own streams, run "
              "here too). Float rendering only on the exact-decimal domain (explicit hypothesis). No axioms."),
